@@ -36,7 +36,7 @@ def alarm_times(start, end_anchor, alarm):
     if trig is None:
         return []
     if isinstance(trig, timedelta):
-        anchor = end_anchor if (alarm.get("related") or "START") == "END" else start
+        anchor = end_anchor if (alarm.get("related") or "START").upper() == "END" else start
         first = nadd(anchor, trig)
     else:
         first = trig
